@@ -77,3 +77,74 @@ Proof.
   rewrite E. split; [reflexivity|]. split; [exact Hnd|]. split; [exact Hc|]. split; [exact Hnil|].
   exact (no_empty_parent_entries _ Hfresh).
 Qed.
+
+(* ---- the answers the concurrent callers get ---- *)
+(* every operation of a sequence with its result (crun stops at the first panic; without one the two agree) *)
+Fixpoint cfold (s : cm) (ops : list cop) : cm * list cres :=
+  match ops with
+  | [] => (s, [])
+  | o :: r => let '(s1, x) := cstep s o in let '(s2, xs) := cfold s1 r in (s2, x :: xs)
+  end.
+
+Lemma crun_cfold ops : forall s,
+  (forall x, In x (snd (crun s ops)) -> is_panic x = false) -> crun s ops = cfold s ops.
+Proof.
+  induction ops as [|o r IH]; intros s H; [reflexivity|].
+  cbn [crun cfold] in *. destruct (cstep s o) as [s1 x] eqn:E.
+  destruct (is_panic x) eqn:Hp.
+  - exfalso. cbn in H. specialize (H x (or_introl eq_refl)). rewrite H in Hp. discriminate.
+  - destruct (crun s1 r) as [s2 xs] eqn:E2.
+    assert (Hr : crun s1 r = cfold s1 r).
+    { apply IH. intros y Hy. apply H. cbn. right. rewrite E2 in Hy. exact Hy. }
+    rewrite <- Hr, E2. reflexivity.
+Qed.
+
+Lemma cm_ret_on_all (l : list (cm_ccall * cres)) : SerialEq.ret_on cm_ueqb tt l = l.
+Proof. induction l as [|x l IH]; cbn; [reflexivity|]. f_equal. exact IH. Qed.
+
+Lemma cm_serial_snd_is_cfold (l : list cm_ccall) :
+  forall (f : unit -> cm) (acc : list (cm_ccall * cres)),
+    map fst (snd (fold_left (SerialEq.serial_step cm_ueqb cm_upd) l (f, acc))) = map fst acc ++ l /\
+    map snd (snd (fold_left (SerialEq.serial_step cm_ueqb cm_upd) l (f, acc))) =
+      map snd acc ++ snd (cfold (f tt) (map (@SerialEq.c_op unit cop) l)).
+Proof.
+  induction l as [|c l IH]; intros f acc; cbn [fold_left map cfold snd].
+  - rewrite !app_nil_r. split; reflexivity.
+  - pose (f' := SerialEq.set cm_ueqb f (SerialEq.c_lock c) (fst (cm_upd (SerialEq.c_lock c) (SerialEq.c_op c) (f (SerialEq.c_lock c))))).
+    pose (acc' := acc ++ [(c, snd (cm_upd (SerialEq.c_lock c) (SerialEq.c_op c) (f (SerialEq.c_lock c))))]).
+    change (SerialEq.serial_step cm_ueqb cm_upd (f, acc) c) with (f', acc').
+    destruct (IH f' acc') as [IH1 IH2].
+    rewrite IH1, IH2. unfold acc' at 1 2. rewrite !map_app. cbn [map fst snd]. rewrite <- !app_assoc. cbn [app].
+    split; [reflexivity|]. f_equal.
+    unfold acc', f', SerialEq.set, cm_ueqb, cm_upd. destruct (SerialEq.c_lock c).
+    destruct (cstep (f tt) (SerialEq.c_op c)) as [s1 x]. cbn [fst snd].
+    destruct (cfold s1 (map (@SerialEq.c_op unit cop) l)) as [s2 xs]. reflexivity.
+Qed.
+
+(* the calls, in the order their bodies ran, are the calls in lock-acquisition order, and every caller got the result
+   the sequential sequence gives at that position *)
+Theorem concurrent_chanmap_responses progs (s0 : cm) sched (s : cm_cstate) :
+  SerialEq.run cm_ueqb cm_upd sched (SerialEq.init progs (fun _ => s0)) = Some s -> SerialEq.finished s = true ->
+  map fst (SerialEq.hist s) = SerialEq.acqs s /\
+  map snd (SerialEq.hist s) = snd (cfold s0 (map (@SerialEq.c_op unit cop) (SerialEq.acqs s))).
+Proof.
+  intros Hr Hf.
+  destruct (SerialEq_proofs.serial_equivalence cm_ueqb cm_ueqb_spec cm_upd progs (fun _ => s0) sched s Hr Hf) as (_ & _ & Hret & _).
+  specialize (Hret tt). rewrite !cm_ret_on_all in Hret. rewrite Hret. unfold SerialEq.serial.
+  destruct (cm_serial_snd_is_cfold (SerialEq.acqs s) (fun _ => s0) []) as [H1 H2]. split; [exact H1|exact H2].
+Qed.
+
+(* hence no concurrent caller panics (nil map, double close) when the lock-acquisition order carries fresh names *)
+Theorem concurrent_chanmap_no_caller_panics progs sched (s : cm_cstate) :
+  SerialEq.run cm_ueqb cm_upd sched (SerialEq.init progs (fun _ => cm_init)) = Some s -> SerialEq.finished s = true ->
+  fresh_adds (map (@SerialEq.c_op unit cop) (SerialEq.acqs s)) ->
+  length (SerialEq.hist s) = length (SerialEq.acqs s) /\
+  Forall (fun x => is_panic x = false) (map snd (SerialEq.hist s)).
+Proof.
+  intros Hr Hf Hfresh.
+  destruct (concurrent_chanmap_responses progs cm_init sched s Hr Hf) as [H1 H2].
+  destruct (chanmap_total _ Hfresh) as (Hnp & _).
+  split; [rewrite <- H1, map_length; reflexivity|].
+  rewrite H2, <- crun_cfold; [exact Hnp|].
+  intros x Hx. rewrite Forall_forall in Hnp. exact (Hnp x Hx).
+Qed.
